@@ -100,6 +100,9 @@ def build(names, shape, traits, mode, with_attrs, const_name=None):
                                                            else sx.cargs(key='( $ , %d )' % len(a)))))
             if 'Default' in traits and i % len(ftypes) == 0 and not ops and not deref:
                 attrs.append(sx.a_default(sx.m_list(sx.dargs('& 7'))))
+            if 'Default' in traits and i % len(ftypes) == 3 and with_attrs in (1, 3) and not ops and not deref:
+                # a path expression: converted with Into (must resolve under no_std and with the prelude shadowed)
+                attrs.append(sx.a_default(sx.m_list(sx.dargs('u8 :: MAX'))))
             if with_attrs == 3 and i == 1 and 'Debug' in traits:
                 attrs.append(sx.a_debug(sx.m_list(sx.gargs(transparent=True))))
             elif with_attrs and i == 1 and 'Debug' in traits:
